@@ -23,13 +23,18 @@ RULE = ('integrands on Square/Cube for LinearForm / BilinearForm over scalar, ve
         'coefficient / coordinate integrands; sums over two regions whose integrands are lin + N and lin - N, N '
         'non-linear or constant: each region non-linear, cancelling only across regions).  Linear ones also with '
         'top-level summands that are individually non-linear but cancel by a polynomial identity inside one integrand '
-        '((a+c)**2 - a**2 - c**2, a*(a+c) - a**2, ...).  A fixed corpus (u1*(u1-u2)*v1, f*(v1-v2)**2, x*y without test '
-        'function, x*v without trial function, int_Om(f*v+v**2)+int_Ga(x*v-v**2), (v+f)**2-v**2-f**2, ...) runs first on '
+        '((a+c)**2 - a**2 - c**2, a*(a+c) - a**2, ...).  Floating-point numbers (0.1, 0.2, 0.3, 0.7, 1e-3, 2.5, ...) are in the '
+        'coefficient pool of linear and non-linear cases; 8 % of the cases are linear with SEVERAL float contributions to '
+        'one monomial, one hidden in a factor ((x+0.1)*t + 0.2*t [+ 0.7*t - 0.3*t]), also on boundaries.  A fixed corpus (u1*(u1-u2)*v1, f*(v1-v2)**2, x*y without test '
+        'function, x*v without trial function, int_Om(f*v+v**2)+int_Ga(x*v-v**2), (v+f)**2-v**2-f**2, (x+0.1)*v+0.2*v, (f+0.3)*v+0.7*v, ...) runs '
+        'first on '
         'every seed.  One case = one constructor call; non-trivial = '
         'every case (the verdict is computed by substitution, re-evaluation and expansion); distinct by request line')
 ASSUMPTIONS = [
     'the model compares by polynomial normal form over maximal non-arithmetic sub-terms (verified normaliser); sympy '
     'uses expand(): agreement of the two is what the correspondence checks',
+    'floats: the serialiser sends a Float as its exact rational value, the oracle instantiates it by the same rational: '
+    'linearity does not depend on the numeric type, both decide it in exact arithmetic',
     'substitution re-runs the operator constructors (Model/Calc.lean, property C02) and the linear part of dx / F[i]',
     'ground truth of the oracle: known by construction (a sum of terms each linear in one component of every argument '
     'group is linear, also after adding summands that cancel by a polynomial identity; one added term of a listed '
@@ -101,9 +106,35 @@ def is_vec(a, m):
     return isinstance(a, m['VectorFunction'])
 
 
+FLOATS = [0.1, 0.2, 0.3, 0.7, 1e-3, 2.5, 0.5, 0.25, 1.1, 0.6]
+
+
+def fl(rng, m):
+    """a floating-point number (sympy Float): most of them are not exact in binary"""
+    return m['sympy'].Float(rng.choice(FLOATS))
+
+
 def coef(W, rng):
     m = W.m
+    if rng.random() < 0.15:
+        return rng.choice([fl(rng, m), W.x[0] + fl(rng, m), W.f + fl(rng, m), fl(rng, m) * W.k1])
     return rng.choice([1, 1, 2, m['Rational'](1, 2), W.k1, W.f, W.x[0], W.f * W.x[1], W.g + 1])
+
+
+def float_contributions(W, rng, tests, trials):
+    """several floating-point contributions to the SAME monomial, one of them hidden in a factor: linear in both groups
+    (whether a number is a float or a rational is irrelevant for linearity)"""
+    m = W.m
+    t = lin_in_group(W, rng, tests)
+    if trials:
+        t = t * lin_in_group(W, rng, trials)
+    c = rng.choice([W.x[0], W.f, W.k1, W.x[0] * W.f])
+    e = (c + fl(rng, m)) * t + fl(rng, m) * t
+    if rng.random() < 0.4:
+        e = e + fl(rng, m) * t
+    if rng.random() < 0.3:
+        e = e - fl(rng, m) * t
+    return e
 
 
 def lin_scalar(W, rng, v):
@@ -314,16 +345,24 @@ def make_case(W, rng):
             g1, g2 = rng.sample(W.faces, 2)
             expr = integral(W.domain, body) + integral(g1, bt + N) + integral(g2, bt - N)
         return dict(bilinear=bilinear, trials=trials, tests=tests, expr=expr, label='cross-region-cancel:' + lab)
-    if r0 < 0.17:
-        # non-linear terms that cancel INSIDE one integrand: the integrand is linear
-        body = body + cancelling_terms(W, rng, tests, trials)
-        label = 'linear:cancelling-terms'
+    if r0 < 0.25:
+        if r0 < 0.17:
+            # non-linear terms that cancel INSIDE one integrand: the integrand is linear
+            body = body + cancelling_terms(W, rng, tests, trials)
+            label = 'linear:cancelling-terms'
+        else:
+            # floating-point coefficients adding up on one monomial
+            body = (body if rng.random() < 0.6 else m['S'].Zero) + float_contributions(W, rng, tests, trials)
+            label = 'linear:float-contributions'
         expr = integral(W.domain, body)
         if rng.random() < 0.3:
             bt = bnd_factor(W, rng.choice(tests)) * rng.choice([1, W.k1, W.f])
             if bilinear:
                 bt = bt * bnd_factor(W, rng.choice(trials))
-            if rng.random() < 0.5:
+            if label == 'linear:float-contributions':
+                if rng.random() < 0.6:
+                    bt = (W.x[0] + fl(rng, m)) * bt + fl(rng, m) * bt
+            elif rng.random() < 0.5:
                 # the boundary integrand too
                 t2 = bnd_factor(W, rng.choice(tests))
                 o2 = bnd_factor(W, rng.choice(trials)) if bilinear else m['S'].One
@@ -337,6 +376,11 @@ def make_case(W, rng):
         else:
             label, extra = nonlinear_edit(W, rng, tests, trials)
             label = 'test:' + label
+        if rng.random() < 0.2:
+            # floating-point numbers around a non-linear term (still non-linear)
+            extra = (W.x[0] + fl(rng, m)) * extra + fl(rng, m) * extra
+            if rng.random() < 0.5:
+                body = body + float_contributions(W, rng, tests, trials)
         body = body + extra
     expr = integral(W.domain, body)
     k = rng.random()
@@ -372,6 +416,7 @@ def corpus_cases(W):
     Ib = lambda e: m['integral'](W.bnd, e)
     Ig = lambda e: m['integral'](W.faces[0], e)
     Ig2 = lambda e: m['integral'](W.faces[1], e)
+    Fl = m['sympy'].Float
     grad, dot, div = m['grad'], m['dot'], m['div']
     u1, u2, u3, v1, v2, v3 = W.u, W.ub, W.uc, W.v, W.vb, W.vc
     F1, F2, G1, G2 = W.F, W.Fb, W.G, W.Gb
@@ -425,6 +470,20 @@ def corpus_cases(W):
         Bi([u1], [v1], I(((u1 + f) ** 2 - u1 ** 2 - f ** 2) * v1), 'linear:cancelling-terms'),
         L([v1, v2], I((v1 + v2) ** 2 - (v1 - v2) ** 2 - 4 * v1 * v2 + dx(v2)), 'linear:cancelling-terms'),
         L([G1], I((div(G1) + f) ** 2 - div(G1) ** 2 - f ** 2 + dot(G1, B) * (dot(G1, B) + x) - dot(G1, B) ** 2), 'linear:cancelling-terms'),
+        # floating-point coefficients: several contributions to one monomial (linear: accepted)
+        L([v1], I((x + Fl(0.1)) * v1 + Fl(0.2) * v1), 'linear:float-contributions'),
+        L([v1], I((f + Fl(0.3)) * v1 + Fl(0.7) * v1), 'linear:float-contributions'),
+        L([v1], Ig((x + Fl(0.1)) * v1 + Fl(0.2) * v1), 'linear:float-contributions'),
+        L([v1], I((x + Fl(0.1)) * v1 + Fl(0.2) * v1) + Ig((x + Fl(0.1)) * v1 + Fl(0.2) * v1), 'linear:float-contributions'),
+        Bi([u1], [v1], I((x + Fl(0.1)) * u1 * v1 + Fl(0.2) * u1 * v1), 'linear:float-contributions'),
+        L([v1], I((x + Fl(0.5)) * v1 + Fl(0.25) * v1), 'linear:float-contributions'),
+        L([v1], I(Fl(0.1) * x * v1 + Fl(0.2) * f * v1), 'linear:float-contributions'),
+        L([v1, v2], I((x + Fl(0.1)) * (dx(v1) - v2) + Fl(0.2) * dx(v1) - Fl(0.7) * v2 + Fl(1e-3) * dx(v1)), 'linear:float-contributions'),
+        Bi([F1], [G1], I((f + Fl(0.3)) * div(F1) * div(G1) + Fl(0.7) * div(F1) * div(G1) + Fl(2.5) * dot(F1, G1)), 'linear:float-contributions'),
+        # … and non-linear ones with floats (rejected)
+        L([v1], I((x + Fl(0.1)) * v1 + Fl(0.2)), 'test:constant'),
+        L([v1], I((x + Fl(0.1)) * v1 ** 2 + Fl(0.2) * v1), 'test:square'),
+        Bi([u1], [v1], I((x + Fl(0.1)) * u1 * v1 + Fl(0.2) * u1 * v1 * v1), 'test:self-product'),
         # linear controls
         Bi([u1, u2], [v1, v2], I(u1 * v1 + dot(grad(u2), grad(v2))), 'linear'),
         Bi([u1, u2], [v1, v2], I(x * f * (u1 - u2) * v1) + Ib(u2 * v2), 'linear'),
@@ -497,7 +556,7 @@ def stream(stage, tier, seed, n, m):
         yield i, W, case, None
 
 
-N_CORPUS = 96      # 2 worlds x len(corpus_cases)
+N_CORPUS = 120     # 2 worlds x len(corpus_cases)
 
 
 def is_linear_label(label):
@@ -572,6 +631,9 @@ def make_inst(rng, W, m):
         def inst(self, e):
             if isinstance(e, m['NormalVector']):
                 return m['Matrix']([m['Rational'](i + 2, 7) for i in range(self.dim)])
+            if isinstance(e, m['sympy'].Float):
+                # the exact rational value of the float: linearity is decided in exact arithmetic
+                return m['Rational'](e)
             return super().inst(e)
     return Inst2(rng, W.dim, W.x)
 
